@@ -7,6 +7,7 @@ import TracklibVerif.Lemmas.GraphWorldQ
 import TracklibVerif.Lemmas.GraphAStarFix
 import TracklibVerif.Lemmas.GraphShared
 import TracklibVerif.Lemmas.GraphMetric
+import TracklibVerif.Lemmas.GraphGeo
 import Mathlib.Algebra.Order.Group.Int
 /-! # C06 — network shortest distances are the true minimum over permitted walks
 
@@ -209,6 +210,67 @@ theorem sub_network_edges (net : Net W) (hnet : WFNet net) (s : Nat) (hs : s < n
     e ∈ subEdges net (runForward net s none cut).1 ↔
       (e ∈ net.edges ∧ (∃ y, IsDist net s e.src y ∧ Within cut y) ∧ (∃ y, IsDist net s e.tgt y ∧ Within cut y)) :=
   subEdges_spec net hnet s hs cut e
+
+/-! ### what `sub_network` guarantees for the distances on the network it returns (`Lemmas/GraphGeo.lean`)
+
+`sub_network` fills a new `Network` with some of the parent's `Edge` objects (`sub_net.addEdge(e, e.source, e.target)`: same ends,
+weight, orientation). TOPOLOGIC keeps the edges with both ends visited by `run_routing_forward(source, cut=cut)`; GEOMETRIC (on a
+network without spatial index) keeps the edges with an end within the planimetric distance `cut` of the centre. -/
+
+/-- **distances on an extract, any selection rule** (`keep`; `subNetOf net keep` is the returned network). There
+`shortest_distance(s, t)` is the minimum weight over the permitted walks of the PARENT that stay inside the extract (`WalkIn`:
+every arc carried by a kept edge) — the sentinel iff there is none. Hence it is never below the parent's distance, and it
+equals the parent's distance exactly when some shortest walk of the parent stays inside the extract. -/
+theorem sub_network_distances (net : Net W) (hnet : WFNet net) (keep : Edge W → Bool) (s t : Nat) (hs : s < net.n) :
+    (∀ y, shortestDistance (subNetOf net keep) s t none = some y ↔
+        (WalkIn net keep s t y ∧ ∀ c, WalkIn net keep s t c → y ≤ c)) ∧
+    (shortestDistance (subNetOf net keep) s t none = none ↔ ¬ ∃ c, WalkIn net keep s t c) ∧
+    (∀ y y', shortestDistance (subNetOf net keep) s t none = some y → IsDist net s t y' → y' ≤ y) ∧
+    (∀ y, IsDist net s t y → (shortestDistance (subNetOf net keep) s t none = some y ↔ WalkIn net keep s t y)) :=
+  subNet_distance net hnet keep s t hs
+
+/-- … the TOPOLOGIC extract is such a network: `sub_network_distances` applies to it with `keep` = both ends visited. -/
+theorem sub_network_topologic_is_extract (net : Net W) (st : St W) :
+    ({ n := net.n, edges := subEdges net st } : Net W) = subNetOf net (fun e => st.vis e.src && st.vis e.tgt) := rfl
+
+/-- **TOPOLOGIC keeps the distances from its source.** On the network `sub_network(s, cut, "TOPOLOGIC")` returns,
+`shortest_distance(s, t)` is the parent's distance for every node `t` within the cut-off of `s`: weights are non-negative, so every
+vertex of a shortest walk `s → t` is itself within the cut-off, and every edge of the walk is kept. (Between two other nodes of
+the extract the distance may be larger than in the parent: `sub_network_distances`.) -/
+theorem sub_network_topologic_source_distances (net : Net W) (hnet : WFNet net) (s : Nat) (hs : s < net.n) (cut : Option W)
+    (t : Nat) (y : W) (hy : IsDist net s t y) (hw : Within cut y) :
+    shortestDistance ({ n := net.n, edges := subEdges net (runForward net s none cut).1 } : Net W) s t none = some y :=
+  subTopo_source_distance net hnet s hs cut t y hy hw
+
+section geometric
+variable [Sub W] [Mul W]
+
+/-- **`sub_network(centre, cut, "GEOMETRIC")`, which edges**: exactly the edges of the network one of whose two ends lies within the
+planimetric (`distance2DTo`: East / North only) distance `cut` of the centre; in the order of `EDGES`. `sqrt` is any function. -/
+theorem sub_network_geometric_edges (sqrt : W → W) (pos : Nat → Pos W) (net : Net W) (p : Pos W) (cut : Option W) (e : Edge W) :
+    e ∈ subEdgesGeo sqrt pos net p cut ↔
+      (e ∈ net.edges ∧ (Within cut (distance2DTo sqrt p (pos e.src)) ∨ Within cut (distance2DTo sqrt p (pos e.tgt)))) := by
+  rw [subEdgesGeo_eq]
+  simp only [subNetOf, List.mem_filter, keepGeo_iff]
+
+/-- **`sub_network(centre, cut, "GEOMETRIC")`, which distances**: on the returned network `shortest_distance(s, t)` is the minimum
+weight over the permitted walks of the parent that use only edges with an end within `cut` of the centre (sentinel iff none);
+it is never below the parent's distance; it equals the parent's distance iff a shortest walk of the parent uses only such
+edges — in particular when a shortest walk of the parent has all its vertices within `cut` of the centre (`WalkV`). -/
+theorem sub_network_geometric_distances (sqrt : W → W) (pos : Nat → Pos W) (net : Net W) (hnet : WFNet net) (p : Pos W)
+    (cut : Option W) (s t : Nat) (hs : s < net.n) :
+    let sub : Net W := { n := net.n, edges := subEdgesGeo sqrt pos net p cut }
+    let keep := keepGeo sqrt pos p cut
+    (∀ y, shortestDistance sub s t none = some y ↔ (WalkIn net keep s t y ∧ ∀ c, WalkIn net keep s t c → y ≤ c)) ∧
+    (shortestDistance sub s t none = none ↔ ¬ ∃ c, WalkIn net keep s t c) ∧
+    (∀ y y', shortestDistance sub s t none = some y → IsDist net s t y' → y' ≤ y) ∧
+    (∀ y, IsDist net s t y → (shortestDistance sub s t none = some y ↔ WalkIn net keep s t y)) ∧
+    (∀ y, IsDist net s t y → WalkV net (fun u => Within cut (distance2DTo sqrt p (pos u))) s t y →
+      shortestDistance sub s t none = some y) := by
+  intro sub keep
+  obtain ⟨a, b, c, d⟩ := subNet_distance net hnet keep s t hs
+  refine ⟨a, b, c, d, fun y hy hv => (d y hy).2 (walkV_walkIn (fun e _ he => (keepGeo_iff sqrt pos p cut e).2 he) hv)⟩
+end geometric
 
 /-! ### one `Network` object used for a sequence of calls (`Model/GraphSession.lean`) -/
 
@@ -448,6 +510,14 @@ theorem no_target_no_heuristic (sqrt : V → V) (o : NetObj V) (op : Op V)
     (h1 : ∀ s t cut ud, op ≠ .route s (some t) cut ud) (h2 : ∀ s t cut ud, op ≠ .dist s t cut ud) :
     execObj sqrt o (.call op) = ({ o with sess := (exec o.sess op).1 }, (exec o.sess op).2) :=
   execObj_no_target sqrt o op h1 h2
+/-- `sub_network(source, cut, "GEOMETRIC")` as a call on an object of a program (any state, any routing mode): with the centre given
+as coordinates it returns the edges of `sub_network_geometric_edges` and leaves the object exactly as it was — no search is run, no
+flag, table or setting is touched (unlike TOPOLOGIC, which runs `run_routing_forward`); with the centre given as a `Node` object or
+an id the code raises (`self.__correctInputNode(source).coord` asks the node's *id* for `.coord`; an `int` id has no
+`distance2DTo`) and the object is left as it was. -/
+theorem sub_network_geometric_call (sqrt : V → V) (o : NetObj V) (p : Pos V) (v : Nat) (cut : Option V) :
+    execObj sqrt o (.subGeo (.coord p) cut) = (o, subnetOut (subEdgesGeo sqrt o.pos o.sess.net p cut)) ∧
+    execObj sqrt o (.subGeo (.node v) cut) = (o, .err) := ⟨rfl, rfl⟩
 end routing
 
 /-- **the property in a program with several networks.** Start with no `Network` object and run any program: creations,
@@ -512,7 +582,8 @@ theorem astar_exact (net : Net V) (hnet : WFNet net) (h : Nat → V) (hc : Consi
 
 /-- … with a cut-off (`T4 with a cut-off` for A*): `shortest_distance(s, t, cut)` returns the true distance whenever that
 distance does not exceed the cut-off, and the sentinel whenever `t` is unreachable — for a consistent heuristic that is
-smallest at the target (`h t ≤ h v`; the code's heuristic is `0` at the target and `≥ 0` elsewhere). The label is `g`, so the
+smallest at the target (`h t ≤ h v`; the code's heuristic is `0` at the target and `≥ 0` elsewhere). That hypothesis is needed:
+it does not follow from consistency and `h t = 0` (`astar_cut_needs_smallest_at_target`). The label is `g`, so the
 stop test `pere.poids > cut` compares the travelled distance with the cut-off, as in Dijkstra mode. -/
 theorem astar_cut (net : Net V) (hnet : WFNet net) (h : Nat → V) (hc : Consistent net h) (s t : Nat) (hs : s < net.n)
     (hmin : ∀ v, h t ≤ h v) (cut : Option V) :
@@ -655,6 +726,33 @@ theorem astar_old_inflates :
     by decide +kernel, by decide +kernel, by decide +kernel, hd,
     ((shortest_distance_correct road hwf 0 2 (by decide)).1 20).1 hd⟩
 
+/-- a source `0`, a far node `1` (`0 → 1` of weight 10) where the heuristic is NEGATIVE, and the target `3` behind node `2`
+(`0 → 2` of weight 2, `2 → 3` of weight 3) -/
+def trap : Net Int := { n := 4, edges := [⟨0, 0, 1, 10, 1⟩, ⟨1, 0, 2, 2, 1⟩, ⟨2, 2, 3, 3, 1⟩] }
+def trapH : Nat → Int := fun v => if v = 1 then -8 else if v = 2 then 1 else 0
+
+/-- **the hypothesis `h t ≤ h v` of `astar_cut` cannot be dropped**: it does not follow from consistency and `h t = 0`. On `trap`
+the heuristic `trapH` is consistent and 0 at the target, the distance `0 → 3` is 5, within the cut-off 7; node 1 (`g = 10`,
+`g + h = 2`) is popped before node 2 (`g + h = 3`), its label 10 exceeds the cut-off and the search stops: `shortest_distance(0, 3,
+cut=7)` reports the sentinel in A* mode (without cut-off: 5; Dijkstra with the cut-off: 5). The code's heuristic `astar_wgt ×
+distance` is `≥ 0 = h t` whenever `0 ≤ astar_wgt` (`astar_heuristic_consistent`), which is the configuration the statement is held
+for; a negative `astar_wgt` gives a consistent heuristic on metric weights but falls here. -/
+theorem astar_cut_needs_smallest_at_target :
+    WFNet trap ∧ Consistent trap trapH ∧ trapH 3 = 0 ∧ IsDist trap 0 3 5 ∧
+    shortestDistanceH trap trapH 0 3 (some 7) = none ∧ shortestDistanceH trap trapH 0 3 none = some 5 ∧
+    shortestDistance trap 0 3 (some 7) = some 5 := by
+  have hwf : WFNet trap := by
+    intro e he
+    simp only [trap, List.mem_cons, List.not_mem_nil, or_false] at he
+    rcases he with rfl | rfl | rfl <;> simp [trap]
+  have hcons : Consistent trap trapH := by
+    intro u v w ⟨e, he, hw, hdir⟩
+    simp only [trap, List.mem_cons, List.not_mem_nil, or_false] at he
+    rcases he with rfl | rfl | rfl <;> rcases hdir with ⟨_, rfl, rfl⟩ | ⟨_, rfl, rfl⟩ <;> subst hw <;> decide
+  have hd : shortestDistance trap 0 3 none = some 5 := by decide +kernel
+  exact ⟨hwf, hcons, by decide, ((shortest_distance_correct trap hwf 0 3 (by decide)).1 5).1 hd,
+    by decide +kernel, by decide +kernel, by decide +kernel⟩
+
 /-- non-vacuity of the A* theorems on a network where the heuristic matters: a detour 0 –3– 1 –4– 3 (nodes 0, 1, 3 are
 corners of a 3 × 4 rectangle, node 3 opposite node 0: straight-line 5) and the direct diagonal 0 –6– 3 of weight 6 ≥ 5,
 plus a dead end 0 –1– 2 pointing away from the target. `h` = straight-line distance to node 3. A* reports 6 = the minimum and
@@ -769,5 +867,18 @@ example : sqrtRat (25 / 4) = 5 / 2 ∧ isSquareRat (25 / 4) = true ∧ isSquareR
 lengths, `astar_wgt = 1`): every arc weighs at least `astar_wgt` × the distance between its ends -/
 example : ∀ e ∈ [(0, 1, (10 : Rat)), (1, 0, 10), (1, 2, 10), (2, 1, 10)],
     (1 : Rat) * distanceTo sqrtRat (roadPos e.1) (roadPos e.2.1) ≤ e.2.2 := by decide +kernel
+
+/-- non-vacuity of the `sub_network` theorems: the road 0 –10– 1 –10– 2 (nodes at x = 0, 10, 20). GEOMETRIC around (0, 0, altitude 5):
+radius 10 keeps both edges (node 1 is an end of each), radius 5 keeps edge 0 only — then node 2 is cut off (`none`) although the
+parent reports 20; TOPOLOGIC from node 0 with cut-off 10 keeps edge 0 and the distance 0 → 1. -/
+def roadQ : Net Rat := { n := 3, edges := [⟨0, 0, 1, 10, 0⟩, ⟨1, 1, 2, 10, 0⟩] }
+example : (subEdgesGeo sqrtRat (fun v => ⟨10 * v, 0, 0⟩) roadQ ⟨0, 0, 5⟩ (some 10)).map (·.id) = [0, 1] ∧
+    (subEdgesGeo sqrtRat (fun v => ⟨10 * v, 0, 0⟩) roadQ ⟨0, 0, 5⟩ (some 5)).map (·.id) = [0] ∧
+    shortestDistance { n := 3, edges := subEdgesGeo sqrtRat (fun v => ⟨10 * v, 0, 0⟩) roadQ ⟨0, 0, 5⟩ (some 5) } 0 2 none = none ∧
+    shortestDistance { n := 3, edges := subEdgesGeo sqrtRat (fun v => ⟨10 * v, 0, 0⟩) roadQ ⟨0, 0, 5⟩ (some 10) } 0 2 none = some 20 ∧
+    shortestDistance roadQ 0 2 none = some 20 ∧
+    (subEdges roadQ (runForward roadQ 0 none (some 10)).1).map (·.id) = [0] ∧
+    shortestDistance { n := 3, edges := subEdges roadQ (runForward roadQ 0 none (some 10)).1 } 0 1 none = some 10 := by
+  decide +kernel
 
 end TV.C06
